@@ -776,7 +776,7 @@ class C10(Driver):
         return [v] if v else []
 
     def batch_timeout(self, n):
-        return 1500 + 8 * n
+        return 3000 + 8 * n
 
     def execute(self, plan):
         """run the batch; when a case ends the child (violation, or loaded code that loops/blocks/exhausts memory) note
@@ -798,6 +798,14 @@ class C10(Driver):
             res = r.run(self.render(plan, pending), self.batch_timeout(len(pending)))
             wall += res.wall_us
             info = read_log(res.log or "")
+            for _ in range(2):
+                if not (res.outcome == "timeout" and info["idx"] is None and info["phase"] is None):
+                    break
+                # killed before the first case even started: a stalled machine, not a property of the plan - once more
+                # with a generous limit
+                res = r.run(self.render(plan, pending), 4 * self.timeout_ms)
+                wall += res.wall_us
+                info = read_log(res.log or "")
             verdict, v = self.judge(plan, res, info)
             idx = info["idx"]
             if res.outcome == "timeout" and idx is not None:
